@@ -21,6 +21,11 @@ pub async fn overwrite(path: &str) -> Result<File, std::io::Error> {
         .open(path)
         .await
 }
+pub async fn truncate(path: &str, length: u64) -> Result<(), std::io::Error> {
+    let file = OpenOptions::new().write(true).open(path).await?;
+    file.set_len(length).await
+}
+
 pub async fn remove(path: &str) -> Result<(), std::io::Error> {
     remove_file(path).await
 }
